@@ -590,7 +590,10 @@ func c12(o Opts) error {
 	if err := stalledClient(res); err != nil {
 		return err
 	}
-	res.Rule = "stalled client: a client stops for good at EVERY storage operation of a load / branch create / pool create on create-then-fill storage, then two fresh handles load and a third audits; systematic: for pairs of operations on one journal, client 0 preempted at EVERY one of its storage operations while client 1 runs its whole operation; random: 2-4 clients (separate lake handles on one storage) x 1-3 operations each over {load, delete, compact, vector add, delete-where, merge, create/rename pool, create/remove branch}; a token scheduler switches clients at storage operations following the seeded schedule (preemption budget 1-6); after the run a fresh handle checks: every branch readable, contents = initial + acknowledged loads - acknowledged deletes, every acknowledged commit exactly once in its branch log, names unique, failed operations invisible, a follow-up load succeeds; non-trivial = at least one context switch happened"
+	if err := observedOps(res, o.Tier); err != nil {
+		return err
+	}
+	res.Rule = "observer: one client runs one operation (create/rename/remove pool, create/remove branch, load, delete, compact, delete-where, merge, vector add) and right before EVERY one of its storage operations a second client with a fresh handle checks that every pool and branch it finds listed opens and scans and that the lake-wide meta queries work (atomic and create-then-fill puts); stalled client: a client stops for good at EVERY storage operation of a load / branch create / pool create on create-then-fill storage, then two fresh handles load and a third audits; systematic: for pairs of operations on one journal, client 0 preempted at EVERY one of its storage operations while client 1 runs its whole operation; random: 2-4 clients (separate lake handles on one storage) x 1-3 operations each over {load, delete, compact, vector add, delete-where, merge, create/rename pool, create/remove branch}; a token scheduler switches clients at storage operations following the seeded schedule (preemption budget 1-6); after the run a fresh handle checks: every branch readable, contents = initial + acknowledged loads - acknowledged deletes, every acknowledged commit exactly once in its branch log, names unique, failed operations invisible, a follow-up load succeeds; non-trivial = at least one context switch happened"
 	var keys []string
 	for k := range res.Dist {
 		keys = append(keys, k)
